@@ -504,3 +504,13 @@ Proof.
   rewrite F, Y, (nonterminal_yields rq a N). simpl.
   rewrite (stream_malformed_exact rq x S K), run_done. simpl. rewrite app_nil_r. auto.
 Qed.
+
+(* ------------------------------------------------------------------------------------------ *)
+(* histories: every call of a history is the run of that call alone; the client is unchanged   *)
+Lemma history_independent cl calls :
+  snd (run_history cl calls) = cl /\
+  fst (run_history cl calls) = map (fun c => run_ws (cfg_of cl (fst (fst c))) (snd (fst c)) (snd c)) calls.
+Proof.
+  induction calls as [|[[k rq] fs] r [IH1 IH2]]; [split; reflexivity|].
+  simpl. destruct (run_history cl r) as [ts cl'']. simpl in *. subst. split; reflexivity.
+Qed.
